@@ -69,6 +69,9 @@ pub struct OpInfo {
     pub end: Option<(usize, Res, u64)>,
     pub cancelled: Option<usize>,
     pub panicked: Option<(usize, String)>,
+    /// the calling task had used up its cooperative budget when the call was made: the call's first budgeted operation
+    /// (acquiring a mailbox permit) yields instead of completing, so nothing can be said about the instant of the call
+    pub starved: bool,
 }
 
 impl OpInfo {
@@ -166,7 +169,13 @@ impl<'a> Ix<'a> {
             phases: BTreeMap::new(),
             samples: vec![],
         };
+        let mut starved: BTreeSet<u64> = BTreeSet::new();
         for (i, e) in log.iter().enumerate() {
+            if let K::Note(s) = &e.k {
+                if let Some(op) = s.strip_prefix("nobudget ").and_then(|x| x.parse::<u64>().ok()) {
+                    starved.insert(op);
+                }
+            }
             match &e.k {
                 K::CallStart {
                     op,
@@ -192,6 +201,7 @@ impl<'a> Ix<'a> {
                             end: None,
                             cancelled: None,
                             panicked: None,
+                            starved: starved.contains(op),
                         },
                     );
                     let a = &mut ix.actors[*actor];
@@ -358,7 +368,7 @@ impl<'a> Ix<'a> {
     /// earlier operations on the actor could still occupy a slot (so nobody is parked and a slot is free: the send completes in
     /// its first poll), the actor has finished on_start or not (the mailbox is open from spawn) and has not begun to stop.
     pub fn certainly_accepted(&self, o: &OpInfo) -> bool {
-        if !self.sim() || !o.kind.is_msg() || o.panicked.is_some() {
+        if !self.sim() || !o.kind.is_msg() || o.panicked.is_some() || o.starved {
             // a call that panicked in its caller (deadlock report) never reached the mailbox
             return false;
         }
